@@ -660,6 +660,12 @@ pub fn exec_raw(plan: &RawPlan, trace: bool) -> Exec {
                 let _ = s.write_all(&[0x40]).await;
                 keep.push(Box::new(s));
             }
+            // a complete reserved (GREASE) frame first, then silence / then the first byte of the signal
+            3 | 4 => {
+                let (mut s, rcv) = ctx.raw.open_bi().await.map_err(|e| format!("{e:?}"))?;
+                let _ = s.write_all(if plan.stalled_stream == 3 { &[0x21, 0x00] } else { &[0x7c, 0xad, 0x02, 0xab, 0xcd, 0x40] /* type 0x1f * 500 + 0x21, 2 payload bytes */ }).await;
+                keep.push(Box::new((s, rcv)));
+            }
             _ => {}
         }
         if plan.app_drops_all {
@@ -786,7 +792,7 @@ impl TypedScenario for C09Raw {
             _ => Cause::PeerClose { code: rng.range(0, (1 << 62) - 1), reason_hex: harness::hex(&rng.bytes(quic_rl)) },
         };
         let app_drops_all = rng.chance_pm(250);
-        RawPlan { seed, rt: RtKnobs::from_rng(&mut rng), net, server_under_test: index % 2 == 0, cause, clones: rng.usize(1, 3), stalled_stream: rng.below(3) as u8, app_drops_all, extra_requests: if rng.chance_pm(350) { rng.range(1, 4) as u8 } else { 0 }, qpack_streams: if rng.chance_pm(400) { rng.range(1, 3) as u8 } else { 0 } }
+        RawPlan { seed, rt: RtKnobs::from_rng(&mut rng), net, server_under_test: index % 2 == 0, cause, clones: rng.usize(1, 3), stalled_stream: rng.below(5) as u8, app_drops_all, extra_requests: if rng.chance_pm(350) { rng.range(1, 4) as u8 } else { 0 }, qpack_streams: if rng.chance_pm(400) { rng.range(1, 3) as u8 } else { 0 } }
     }
     fn execute(&self, plan: &RawPlan, trace: bool) -> Exec {
         exec_raw(plan, trace)
@@ -1217,7 +1223,7 @@ pub fn def() -> PropertyDef {
     PropertyDef {
         id: "C09",
         scenarios: vec![Box::new(Typed(C09E2E)), Box::new(Typed(C09Raw)), Box::new(Typed(C09Sync)), Box::new(Typed(C09Early))],
-        rule: "e2e-termination: real client and server; the observer (either role) has a battery of calls pending over 1-3 cloned handles - accept_uni x2, accept_bi, receive_datagram x2, closed, read on a stream that never gets data, write_all of 2 MiB against a full window, stopped, and (half of the runs) open_uni blocked on stream credit - when, at a generated instant, one of seven causes ends the connection: peer close(code, reason), local close, black hole in both directions, inbound-only cut, peer endpoint closed, local endpoint closed, peer drops every handle. Oracle: every pending call completes within 30 s simulated of the cause (idle timeout + 30 s for the black-hole causes, 10 s for dropped handles) and a second battery of 12 fresh calls (accepts, opens, send_datagram, closed, write / finish / stopped / read on held streams) each returns within 5 s; no call succeeds after the cause; each connection-level error is in allowed(cause): the peer's exact code and reason, LocallyClosed for local causes or where the library shut the transport down in response, TimedOut for black holes; stream-level calls report NotConnected; no two different local protocol errors; no panic in any task (process-wide panic hook); after the peer drops every handle its node transmits nothing in a 60 s window following a 3 s drain. raw-termination: same battery on the endpoint under test against a scripted raw peer, causes: close capsule, clean FIN, six protocol violations (DATA on control, second SETTINGS, control FIN, CONNECT stream reset, WebTransport stream with an invalid session id, datagram with an out-of-range quarter id), raw QUIC close; optionally a peer stream stalled mid-preamble, the peer's QPACK encoder / decoder streams open, and 1-4 further valid CONNECT requests left open on the same connection (server under test); and runs in which the application drops every handle and the raw peer must see the connection closed within 10 s. raw-early-termination: the raw peer closes the QUIC connection (code, reason) while the session is being set up - right after the handshake, after its SETTINGS, or after the CONNECT request is on the wire - and the pending set-up call (incoming session, SessionRequest::accept made 500 ms later, connect) must end within 60 s naming exactly that code and reason. unit-sync: shared_result and bichannel (through the cfg hook) under a seeded executor that picks the next runnable task itself (random and PCT-style priorities) and cancels tasks at chosen polls: exactly one set() wins, every result() that returns equals the winner (None only when nobody set), uncancelled readers all return, closed() resolves once every getter is gone; bichannel delivers every sent value exactly once, in per-sender order, across receiver cancellation. Non-trivial = at least 6 pending calls (E2E) / every run (others); distinct = distinct plan hashes.",
+        rule: "e2e-termination: real client and server; the observer (either role) has a battery of calls pending over 1-3 cloned handles - accept_uni x2, accept_bi, receive_datagram x2, closed, read on a stream that never gets data, write_all of 2 MiB against a full window, stopped, and (half of the runs) open_uni blocked on stream credit - when, at a generated instant, one of seven causes ends the connection: peer close(code, reason), local close, black hole in both directions, inbound-only cut, peer endpoint closed, local endpoint closed, peer drops every handle. Oracle: every pending call completes within 30 s simulated of the cause (idle timeout + 30 s for the black-hole causes, 10 s for dropped handles) and a second battery of 12 fresh calls (accepts, opens, send_datagram, closed, write / finish / stopped / read on held streams) each returns within 5 s; no call succeeds after the cause; each connection-level error is in allowed(cause): the peer's exact code and reason, LocallyClosed for local causes or where the library shut the transport down in response, TimedOut for black holes; stream-level calls report NotConnected; no two different local protocol errors; no panic in any task (process-wide panic hook); after the peer drops every handle its node transmits nothing in a 60 s window following a 3 s drain. raw-termination: same battery on the endpoint under test against a scripted raw peer, causes: close capsule, clean FIN, six protocol violations (DATA on control, second SETTINGS, control FIN, CONNECT stream reset, WebTransport stream with an invalid session id, datagram with an out-of-range quarter id), raw QUIC close; optionally a peer stream stalled mid-preamble (also after a complete reserved frame), the peer's QPACK encoder / decoder streams open, and 1-4 further valid CONNECT requests left open on the same connection (server under test); and runs in which the application drops every handle and the raw peer must see the connection closed within 10 s. raw-early-termination: the raw peer closes the QUIC connection (code, reason) while the session is being set up - right after the handshake, after its SETTINGS, or after the CONNECT request is on the wire - and the pending set-up call (incoming session, SessionRequest::accept made 500 ms later, connect) must end within 60 s naming exactly that code and reason. unit-sync: shared_result and bichannel (through the cfg hook) under a seeded executor that picks the next runnable task itself (random and PCT-style priorities) and cancels tasks at chosen polls: exactly one set() wins, every result() that returns equals the winner (None only when nobody set), uncancelled readers all return, closed() resolves once every getter is gone; bichannel delivers every sent value exactly once, in per-sender order, across receiver cancellation. Non-trivial = at least 6 pending calls (E2E) / every run (others); distinct = distinct plan hashes.",
         assumptions: vec![
             "bounds are in simulated seconds and generous; liveness is only demanded after the cause",
             "current-thread runtime / hand-written executor: data races inside tokio primitives are out of scope",
